@@ -655,5 +655,42 @@ func checkDispatch(viol func(string, ...interface{})) int {
 	}
 	try(100003, 3, nfsProcs, []uint32{22, 23, 100, 0xffffffff})
 	try(100005, 3, mountProcs, []uint32{6, 7, 99})
+	// truncated argument bytes handed to the registered handler wrappers: the
+	// wrapper must report the decoding error and must not run the procedure
+	fhb := []byte{1, 2, 3, 4, 5, 6, 7, 8, 9, 10, 11, 12, 13, 14, 15, 16}
+	wrap := func(regs []xdr.ProcRegistration, tbl []procEnt) {
+		for _, reg := range regs {
+			if int(reg.Proc) >= len(tbl) {
+				continue
+			}
+			pe := tbl[reg.Proc]
+			full, err := encodeSafe(pe.arg(fhb))
+			if err != nil || len(full) == 0 {
+				continue
+			}
+			for cut := 0; cut < len(full); cut++ {
+				h.rec("", nil)
+				var herr error
+				func() {
+					defer func() {
+						if e := recover(); e != nil {
+							herr = fmt.Errorf("panic: %v", e)
+						}
+					}()
+					_, herr = reg.Handler(xdr.MakeReader(append([]byte{}, full[:cut]...)))
+				}()
+				n++
+				h.mu.Lock()
+				got := h.last
+				h.mu.Unlock()
+				if herr == nil || got != "" {
+					viol("program %d procedure %d (%s): arguments cut to %d of %d bytes are not rejected (error %v, handler run: %q)", reg.Prog, reg.Proc, pe.name, cut, len(full), herr, got)
+					break
+				}
+			}
+		}
+	}
+	wrap(nt.NFS_PROGRAM_NFS_V3_regs(h), nfsProcs)
+	wrap(nt.MOUNT_PROGRAM_MOUNT_V3_regs(h), mountProcs)
 	return n
 }
